@@ -17,6 +17,7 @@ from .tlc import MachineryFailure
 VERIF = os.path.dirname(os.path.dirname(os.path.dirname(os.path.abspath(__file__))))
 REPO = os.path.abspath(os.environ.get("VERIF_REPO", "/repo"))
 KNOWN_FILE = os.path.join(VERIF, "known_findings.json")
+OUT = os.path.abspath(os.environ.get("VERIF_OUT", VERIF))     # where evidence/ and replays/ are written (seed evaluation redirects it)
 
 
 def canon_hash(obj) -> str:
@@ -114,7 +115,7 @@ class Run:
     # ------------------------------------------------------------------ finish
     def finish(self) -> int:
         wall = time.time() - self.t0
-        rdir = os.path.join(VERIF, "replays", self.pid)
+        rdir = os.path.join(OUT, "replays", self.pid)
         lines = []
         for kid, (k, n) in sorted(self.known_hits.items()):
             lines.append(f"KNOWN-FINDING: property={self.pid} {k['what']} (matched {n} case(s); id {kid})")
@@ -139,11 +140,11 @@ class Run:
         ev = {"property_id": self.pid, "tier": self.tier, "seed": self.seed, "level": self.level,
               "coverage": cov, "assumptions": self.assumptions, "wall_s": round(wall, 2),
               "violations": sum(v[1] for v in self.violations.values())}
-        os.makedirs(os.path.join(VERIF, "evidence"), exist_ok=True)
-        tmp = os.path.join(VERIF, "evidence", f".{self.pid}.json.tmp")
+        os.makedirs(os.path.join(OUT, "evidence"), exist_ok=True)
+        tmp = os.path.join(OUT, "evidence", f".{self.pid}.json.tmp")
         with open(tmp, "w") as f:
             json.dump(ev, f, indent=1, default=repr)
-        os.replace(tmp, os.path.join(VERIF, "evidence", f"{self.pid}.json"))
+        os.replace(tmp, os.path.join(OUT, "evidence", f"{self.pid}.json"))
         for ln in lines:
             print(ln)
         print(f"[{self.pid}] tier={self.tier} seed={self.seed} states={self.states} transitions={self.transitions} "
